@@ -35,6 +35,11 @@ func lensCombo(kind string, req obj, tys map[string]reflect.Type, B reflect.Type
 		if p {
 			return obj{"panic": true}
 		}
+		// "vbits": the values put are drawn from the signed integers of that many bits (0: any value of B)
+		if n, ok := req["vbits"].(int); ok {
+			valueBits = n
+			defer func() { valueBits = 0 }()
+		}
 		return obj{"panic": false, "lens": observeLens(sd, ar, l, 0, B, false, false)}
 	}}
 }
